@@ -24,7 +24,7 @@ type Op struct {
 	Kind   string   `json:"kind"`             // get | expire | bump | mode
 	Conds  []string `json:"conds,omitempty"`  // get: client conditional kinds
 	Scheme string   `json:"scheme,omitempty"` // bump: etag | weak | lm | both | none | sticky | sticky-weak | sticky+lm (tag unchanged across versions)
-	Mode   string   `json:"mode,omitempty"`   // mode: standard | always200 | cond500 | all500 | all404 | cond403
+	Mode   string   `json:"mode,omitempty"`   // mode: standard | always200 | cond500 | all500 | all404 | cond403 | len304 | typed304
 }
 
 type Case struct {
@@ -136,6 +136,11 @@ func runHistory(env *px.Env, org *origin.Origin, site *origin.Site, c Case, idx 
 			v.Status = 500
 		case "all404":
 			v.Status = 404
+		case "len304":
+			// the 304 describes itself, not the stored body
+			v.Raw304 = []origin.HV{{K: "Content-Length", V: "0"}}
+		case "typed304":
+			v.Raw304 = []origin.HV{{K: "Content-Length", V: "7"}, {K: "Content-Type", V: "text/x-not-the-stored-one"}}
 		}
 		versions[ver] = v
 		site.Set(path, id, v)
@@ -327,7 +332,7 @@ func keys(m map[int]bool) []int {
 }
 
 var sub = ev.Register("revalidation-histories",
-	"6-10 concurrent per-resource histories of get(with client conditionals: If-None-Match, If-Modified-Since, If-Match, If-Unmodified-Since, well-formed / malformed / repeated, all carrying marker values) / expire(sleep 1.5 L) / origin bump with validator scheme in {ETag, weak ETag, Last-Modified (IMF-fixdate, RFC 850 or asctime form), both, none, a strong or weak tag that stays the same while the content changes (with or without a changing Last-Modified)} / origin mode in {standard, always 200, 500 or 403 on conditionals, 500/404 always}; model = stored version + its validators; oracle on the origin log: revalidations carry exactly the stored validators, no client marker ever reaches the origin; on the client: 304 keeps the stored body (REVALIDATED) and the next request within the default lifetime is a HIT, 200 replaces it and the old body is never served again, any other status is relayed and the next request asks the origin again; non-trivial = history with >= 2 expiries including a 304 and a 200 replacement; distinct by history",
+	"6-10 concurrent per-resource histories of get(with client conditionals: If-None-Match, If-Modified-Since, If-Match, If-Unmodified-Since, well-formed / malformed / repeated, all carrying marker values) / expire(sleep 1.5 L) / origin bump with validator scheme in {ETag, weak ETag, Last-Modified (IMF-fixdate, RFC 850 or asctime form), both, none, a strong or weak tag that stays the same while the content changes (with or without a changing Last-Modified)} / origin mode in {standard, always 200, 500 or 403 on conditionals, 500/404 always, 304 written by hand with a Content-Length / Content-Type of its own}; model = stored version + its validators; oracle on the origin log: revalidations carry exactly the stored validators, no client marker ever reaches the origin; on the client: 304 keeps the stored body (REVALIDATED) and the next request within the default lifetime is a HIT, 200 replaces it and the old body is never served again, any other status is relayed and the next request asks the origin again; non-trivial = history with >= 2 expiries including a 304 and a 200 replacement; distinct by history",
 	func(c Case, o *ev.Obs) *ev.Failure {
 		site := origin.NewSite()
 		org := origin.New(site.Handler())
@@ -400,7 +405,7 @@ func drawCase(t *rapid.T) Case {
 			case 3, 4:
 				ops = append(ops, Op{Kind: "bump", Scheme: rapid.SampledFrom([]string{"etag", "weak", "lm", "both", "none", "lm850", "lmasc"}).Draw(t, "scheme")}, Op{Kind: "expire"})
 			case 5:
-				ops = append(ops, Op{Kind: "mode", Mode: rapid.SampledFrom([]string{"standard", "standard", "always200", "cond500", "cond403", "all500", "all404"}).Draw(t, "mode")})
+				ops = append(ops, Op{Kind: "mode", Mode: rapid.SampledFrom([]string{"standard", "standard", "always200", "cond500", "cond403", "all500", "all404", "len304", "typed304"}).Draw(t, "mode")})
 			case 6:
 				ops = append(ops, Op{Kind: "bump", Scheme: rapid.SampledFrom([]string{"etag", "weak", "lm", "both", "none", "lm850", "lmasc"}).Draw(t, "scheme")})
 			case 7:
